@@ -339,6 +339,79 @@ class UpdateCachedStateNum:
     ensures = [caches_when_there_is_a_cache]
 
 
+# ------------------------------------------------------------------------------------------------- mDNS record parsing
+
+
+class _Addr(StubObj):
+    def __init__(self, it, k):
+        self.f_is_link_local = it.fresh(Bool, f"addr{k}_is_link_local")
+        self.f_is_unspecified = it.fresh(Bool, f"addr{k}_is_unspecified")
+        self.k = k
+
+
+class _ServiceInfo(StubObj):
+    def __init__(self, addrs, props, port):
+        self.addrs = addrs
+        self.f_decoded_properties = props
+        self.f_name = "Acc._hap._tcp.local."
+        self.f_type = "_hap._tcp.local."
+        self.f_port = port
+
+    def m_ip_addresses_by_version(self, it, version):
+        return list(self.addrs)
+
+
+def _record_setup(it):
+    """a record with 0..3 addresses (zeroconf's order), each link-local / unspecified or not (symbolic); TXT properties: the
+    id under 'id', 'ID' or absent or None, with ARBITRARY text; c# / s# absent or arbitrary text; the other numbers absent"""
+    n = it.ctx.choose([0, 1, 2, 3])
+    addrs = [_Addr(it, k) for k in range(n)]
+    idkey = it.ctx.choose(["id", "ID", "absent", "none"])
+    props = {"md": "Model"}
+    ident = it.fresh(Str, "txt_id")
+    if idkey in ("id", "ID"):
+        props[idkey] = ident
+    elif idkey == "none":
+        props["id"] = None
+    nums = bool(it.ctx.choose([1, 0]))
+    if nums:
+        props["c#"] = it.fresh(Str, "txt_c")
+        props["S#"] = it.fresh(Str, "txt_s")
+    it.ctx.ghost.update(addrs=addrs, idkey=idkey, ident=ident, nums=nums, props=props)
+    return {"cls": HomeKitService, "service": _ServiceInfo(addrs, props, it.fresh(Int, "port"))}
+
+
+@contract("aiohomekit.zeroconf:HomeKitService.from_service_info", prop="C19")
+class ParseRecord:
+    """parsing an mDNS record: only ValueError escapes (the caller ignores such a record); an accepted record has a
+    usable address, the id lower-cased whatever the case of key and value, and the numbers of its TXT record"""
+
+    setup = _record_setup
+    raises = {ValueError: True}
+
+    def usable_addresses_only(ghost, result):
+        usable = sum([int((not a.is_link_local) and (not a.is_unspecified)) for a in ghost["addrs"]])
+        return usable >= 1 and len(result.addresses) == usable and result.address is result.addresses[0]
+
+    def id_lower_cased(ghost, result):
+        return ghost["idkey"] in ("id", "ID") and result.id == ghost["ident"].lower()
+
+    def numbers_from_the_record(ghost, result):
+        p = ghost["props"]
+        if ghost["nums"]:
+            return result.config_num == int(p["c#"]) and result.state_num == int(p["S#"])
+        return result.config_num == 0 and result.state_num == 0
+
+    ensures = [usable_addresses_only, id_lower_cased, numbers_from_the_record]
+
+    def rejects_only_malformed_records(ghost, exc):
+        """a record with a usable address, an id and no (possibly non-numeric) numbers is never rejected"""
+        usable = sum([int((not a.is_link_local) and (not a.is_unspecified)) for a in ghost["addrs"]])
+        return usable == 0 or ghost["idkey"] in ("absent", "none") or ghost["nums"]
+
+    exsures = [rejects_only_malformed_records]
+
+
 # ------------------------------------------------------------------------------------------------- aggregate async_find
 
 
